@@ -78,6 +78,10 @@ FLAVOURS = {
                              cache=True),
     "tls12-resume-ticket": dict(v="tls12", kx=["rsa"], tickets=True,
                                 resume=True),
+    # post-handshake authentication: the server's CertificateRequest and
+    # the client's Certificate / CertificateVerify / Finished travel through
+    # read(), not through a handshake call
+    "tls13-pha": dict(v="tls13", ccred="c_rsa", pha=True, c08_only=True),
     "any": dict(v=None),
 }
 FL_NAMES = sorted(FLAVOURS)
@@ -124,6 +128,8 @@ def opts_for(name):
         server["reqCert"] = True
         if f.get("ccred"):
             client["cred"] = f["ccred"]
+    if f.get("pha"):
+        client["cred"] = f["ccred"]
     if f.get("alpn"):
         client["alpn"] = [bytearray(b"h2"), bytearray(b"http/1.1")]
         server["alpn"] = [bytearray(b"http/1.1")]
@@ -153,6 +159,17 @@ def opts_for(name):
 _honest = {}
 
 
+def post_handshake_auth(p):
+    """server requests, client reads and answers, server reads"""
+    from vlib.driver import drive
+    outs, _ = drive({"s": p.s.request_post_handshake_auth()}, p.link,
+                    on_stall="leave")
+    post = {"req": outs["s"]}
+    post["c"] = sc.do_read(p, "c", 10, 0)
+    post["s"] = sc.do_read(p, "s", 10, 0)
+    return post
+
+
 def honest(name):
     """message list per side of the honest run: [(type, length)]"""
     if name not in _honest:
@@ -172,6 +189,8 @@ def honest(name):
             raise BaselineBroken("flavour:" + name, "%r %r" % (p.co, p.so))
         sc.do_write(p, "s", b"x")
         sc.read_all(p, "c")
+        if FLAVOURS[name].get("pha"):
+            post_handshake_auth(p)
         _honest[name] = log
     return _honest[name]
 
@@ -356,6 +375,27 @@ def mutate_ext(data, m):
                 ln = int.from_bytes(body[p + 2:p + 4], "big")
                 exts.append((et, bytes(body[p + 4:p + 4 + ln])))
                 p += 4 + ln
+        elif t in (13, 4):
+            # TLS 1.3 CertificateRequest (context, extensions) and
+            # NewSessionTicket (..., nonce, ticket, extensions): the
+            # extension block is the tail; anything else does not parse so
+            if t == 13:
+                pre = 1 + body[0]
+            else:
+                pre = 8 + 1 + body[8]
+                pre += 2 + int.from_bytes(body[pre:pre + 2], "big")
+            el = int.from_bytes(body[pre:pre + 2], "big")
+            if pre + 2 + el != len(body):
+                return None
+            exts = []
+            p = pre + 2
+            while p + 4 <= len(body):
+                et = int.from_bytes(body[p:p + 2], "big")
+                ln = int.from_bytes(body[p + 2:p + 4], "big")
+                exts.append((et, bytes(body[p + 4:p + 4 + ln])))
+                p += 4 + ln
+            if p != len(body):
+                return None
         else:
             return None
     except (IndexError, ValueError):
@@ -428,6 +468,8 @@ def mutate_ext(data, m):
         return tap.build_server_hello(body[0:2], h["random"],
                                       h["session_id"], h["suite"], exts,
                                       h["compression"])
+    if t in (13, 4):
+        return fixlen(t, bytes(body[:pre]) + tap.build_exts(exts))
     return fixlen(8, tap.build_exts(exts))
 
 
@@ -473,7 +515,10 @@ def judge(conn, outcome, who, wire_before, link, side, labels,
         return ("not-closed:%s" % type(e).__name__,
                 "%s failed with %r but the connection is not closed" % (
                     who, e))
-    if conn.session is not None and conn.session.resumable and \
+    # (the flag, and what the library itself consults before it offers or
+    # hands out the session)
+    if conn.session is not None and (conn.session.resumable or
+                                     conn.session.valid()) and \
             not isinstance(e, TLSClosedConnectionError):
         return ("resumable-after-failure:%s" % type(e).__name__,
                 "%s failed with %r, session still resumable" % (who, e))
@@ -544,6 +589,11 @@ def check(case):
                    "the decoder produced %d bytes for a CompressedCertificate "
                    "that declares a few hundred" % brot["max"],
                    labels=labels)
+    post = None
+    if FLAVOURS[name].get("pha") and p.both_ok:
+        sc.do_write(p, "s", b"x")
+        sc.read_all(p, "c")
+        post = post_handshake_auth(p)
     peak = None
     if measure:
         peak = tracemalloc.get_traced_memory()[1]
@@ -578,7 +628,7 @@ def check(case):
             still = cache[vconn.session.sessionID]
         except KeyError:
             still = None
-        if still is not None and still.resumable:
+        if still is not None and (still.resumable or still.valid()):
             return bad("cached-session-resumable-after-failure",
                        "victim failed with %s; cache still hands out a "
                        "resumable session | case=%r" % (
@@ -594,7 +644,8 @@ def check(case):
             labels.append("deviant-side-crash")
     # a victim that completed must stay sane on the next read
     if vout.ok:
-        o = sc.do_read(p, vic, 100, 1)
+        o = post[vic] if post is not None and post[vic].state == "exc" \
+            else sc.do_read(p, vic, 100, 1)
         r = judge(vconn, o, "victim(%s) read" % vic, 0, p.link, vic, labels)
         if r:
             return bad(r[0] + ":post", r[1] + " | case=%r" % (case,),
@@ -699,8 +750,8 @@ def check_raw(case):
                 still = cache[p.s.session.sessionID]
             except KeyError:
                 still = None
-            if still is not None and still.resumable and not isinstance(
-                    o.exc, TLSClosedConnectionError):
+            if still is not None and (still.resumable or still.valid()) \
+                    and not isinstance(o.exc, TLSClosedConnectionError):
                 return bad("cached-session-resumable-after-failure:"
                            "established", "server read failed with %s; the "
                            "cache still hands out a resumable session" %
@@ -940,7 +991,8 @@ def explicit(tier, seed):
                     for keep in (0, 1):
                         yield {"fl": fl, "side": side, "idx": idx,
                                "m": ["bomb", 4, keep, "brotli"]}
-                if t in (1, 2, 8):
+                if t in (1, 2, 8) or (t in (13, 4) and
+                                      fl.startswith("tls13")):
                     for m in ext_fixed:
                         yield {"fl": fl, "side": side, "idx": idx, "m": m}
                     if fl.startswith("tls13"):
